@@ -106,6 +106,19 @@ func buildCorpus() {
 	for i, b := range []*kmip.CryptographicParameters{cp1, cp2} {
 		corpus = append(corpus, corpusEntry{name: fmt.Sprintf("bare-cryptoparams/%d", i), value: b, target: func() any { return &kmip.CryptographicParameters{} }})
 	}
+	// values handed over as pointers to an interface variable: the dynamic type, not the static one, decides the tag
+	pw := "pw"
+	var o1 kmip.Object = symKey()
+	var o2 kmip.Object = &kmip.SecretData{SecretDataType: kmip.SecretDataTypePassword, KeyBlock: kmip.KeyBlock{KeyFormatType: kmip.KeyFormatTypeOpaque,
+		KeyValue: &kmip.KeyValue{Plain: &kmip.PlainKeyValue{KeyMaterial: kmip.KeyMaterial{Bytes: func() *[]byte { b := []byte(pw); return &b }()}}}}}
+	var o3 kmip.Object = &kmip.OpaqueObject{OpaqueDataType: kmip.OpaqueDataType(1), OpaqueDataValue: []byte("opaque")}
+	corpus = append(corpus, corpusEntry{name: "iface-ptr/SymmetricKey", value: &o1, target: func() any { return &kmip.SymmetricKey{} }})
+	corpus = append(corpus, corpusEntry{name: "iface-ptr/SecretData", value: &o2, target: func() any { return &kmip.SecretData{} }})
+	corpus = append(corpus, corpusEntry{name: "iface-ptr/OpaqueObject", value: &o3, target: func() any { return &kmip.OpaqueObject{} }})
+	var a1 any = cp1
+	var a2 any = &kmip.RequestHeader{ProtocolVersion: kmip.V1_2, BatchCount: 2}
+	corpus = append(corpus, corpusEntry{name: "any-ptr/CryptographicParameters", value: &a1, target: func() any { return &kmip.CryptographicParameters{} }})
+	corpus = append(corpus, corpusEntry{name: "any-ptr/RequestHeader", value: &a2, target: func() any { return &kmip.RequestHeader{} }})
 	hdr := &kmip.RequestHeader{ProtocolVersion: kmip.V1_4, BatchCount: 1, ClientCorrelationValue: "ccv", AttestationCapableIndicator: &t}
 	corpus = append(corpus, corpusEntry{name: "bare-header/1.4", value: hdr, target: func() any { return &kmip.RequestHeader{} }})
 	for i := 0; i < 6; i++ {
@@ -187,9 +200,9 @@ func codecReference() {
 		}
 		for op := 0; op < nCodecOps; op++ {
 			for i := range corpus {
-				ttlv.VerifResetPlanCaches()
+				resetCodecCaches()
 				r := codecOp(&corpus[i], op, nil)
-				ttlv.VerifResetPlanCaches()
+				resetCodecCaches()
 				r2 := codecOp(&corpus[i], op, nil)
 				if r != r2 || len(r) >= 6 && r[:6] == "PANIC:" {
 					r = "" // not deterministic even alone, or panics: excluded from the corpus operations
@@ -197,7 +210,7 @@ func codecReference() {
 				codecRef[i][op] = r
 			}
 		}
-		ttlv.VerifResetPlanCaches()
+		resetCodecCaches()
 	})
 }
 
@@ -269,7 +282,7 @@ func execC20(x *X, scAny any) {
 	codecReference()
 	sc := scAny.(*C20Sc)
 	s := x.S
-	ttlv.VerifResetPlanCaches()
+	resetCodecCaches()
 	check := func(who string, st CodecStep, got string) {
 		if st.Entry >= len(corpus) || st.Op >= nCodecOps {
 			return
@@ -363,4 +376,11 @@ func init() {
 		},
 		Assumptions: []string{"the data-race clause cannot be observed by a serialising simulator; it is checked by a separate, clearly labelled non-simulation step of the thorough tier (go test -race on real goroutines)", "corpus operations that are not deterministic even when run alone, or that panic, are excluded and counted"},
 	})
+}
+
+// resetCodecCaches empties every lazily filled process-wide cache the overlay knows about.
+func resetCodecCaches() {
+	ttlv.VerifResetPlanCaches()
+	kmip.VerifResetCaches()
+	payloads.VerifResetCaches()
 }
